@@ -95,7 +95,11 @@ type Sched struct {
 func newSched(sc *Scenario, maxSteps int) *Sched {
 	s := &Sched{schedule: sc.Schedule, MaxSteps: maxSteps, points: sc.Points}
 	if sc.Pre {
-		s.MaxSteps = 20*maxSteps + 4000
+		// Statements are not a unit a progress bound can be derived from (one loop over the bytes of a
+		// 64 KiB path is 130 000 steps): the bound only limits the time spent on a run, and a run that
+		// exceeds it is abandoned, not judged (Abandoned). Liveness is judged in the cooperative
+		// profiles; here only a lock that is never released counts (Deadlock).
+		s.MaxSteps = 20*maxSteps + 1500000
 		if sc.PreRate > 0 {
 			s.preRate = sc.PreRate
 			s.preRng = NewRng(sc.PreSeed, 0x9e3779b97f4a7c15, 0)
@@ -103,6 +107,9 @@ func newSched(sc *Scenario, maxSteps int) *Sched {
 	}
 	return s
 }
+
+// Abandoned: a preemption run that hit the step limit without a deadlock.
+func (s *Sched) Abandoned(sc *Scenario) bool { return sc.Pre && s.Overrun && !s.Deadlock }
 
 // Switches returns the executed schedule as explicit points.
 func (s *Sched) Switches() []PPoint {
